@@ -488,3 +488,35 @@ pub fn parse_tuples(line: &str, arity: usize) -> Result<Vec<Vec<f64>>, String> {
     }
     Ok(out)
 }
+
+// ---------------------------------------------------------------------- CLI
+
+/// Outcome of running the command line in-process.
+#[derive(Clone, Debug, PartialEq)]
+pub enum CliEnd {
+    /// the argument parser refused the command line
+    ParseError(String),
+    /// `cli()` returned (process exit status 0)
+    Returned,
+}
+
+pub fn run_cli(
+    argv: Vec<String>,
+    stdin: Option<Vec<u8>>,
+    sched: &Sched,
+    io: &IoSpec,
+    abort_at: Option<u64>,
+    global_threads: usize,
+    steps: usize,
+) -> ExecResult<Result<CliEnd, String>> {
+    sim(sched, io, stdin, abort_at, global_threads, steps, move || {
+        use clap::Parser;
+        match kmertools::args::Cli::try_parse_from(argv) {
+            Err(e) => CliEnd::ParseError(e.kind().to_string()),
+            Ok(c) => {
+                kmertools::args::cli(c);
+                CliEnd::Returned
+            }
+        }
+    })
+}
